@@ -132,8 +132,20 @@ theorem correct_given_circuit (P : Params G) (a b : Bytes) (aS sid : Nat) (scala
   -- the garbling and the OT
   generalize hGd : c.garble (hashOf key) (setS r0) inl = Gd
   generalize hwires : (fun i => ((Gd.wires.get (nBits + i)).l0, (Gd.wires.get (nBits + i)).l1)) = wires
-  obtain ⟨cts, henc, hclen, _, hdel⟩ := C06_co_delivers K.Γ (fun _ => true) K.kdf K.g aS nBits
-    (fun i => scalars.getD i 0) (fun i => (bytesToBits b).getD i false) wires rfl (fun _ _ => rfl)
+  -- C06_co_delivers is stated about the HEAD-shaped helpers `Co.encryptO`/`Co.decryptO` (with the on-curve
+  -- checks of `A`, `AaInv` and the points inside); this model does those checks itself (`ofPt`, h1/h2/hP) and
+  -- calls `Co.encrypt`/`Co.decrypt` with `valid := fun _ => true`, where the two coincide
+  -- (Co.encryptO_eq_encrypt / Co.decryptO_eq_decrypt).
+  obtain ⟨cts, henc, hclen, dout, hdec0, _, hdel0⟩ := C06_co_delivers K.Γ (fun _ => true) K.kdf K.g aS nBits
+    (fun i => scalars.getD i 0) (fun i => (bytesToBits b).getD i false) wires rfl rfl (fun _ _ => rfl)
+  rw [Co.encryptO_eq_encrypt K.Γ (fun _ => true) K.kdf _ nBits _ wires rfl] at henc
+  rw [Co.decryptO_eq_decrypt K.Γ (fun _ => true) K.kdf _ nBits _ _ cts rfl] at hdec0
+  have hdel : ∀ i, i < nBits →
+      (Co.decrypt K.Γ K.kdf (Co.senderSetupO K.Γ.ops K.g aS).A nBits (fun i => scalars.getD i 0)
+        (fun i => (bytesToBits b).getD i false) cts).getD i 0#128 =
+        if (bytesToBits b).getD i false then (wires i).2 else (wires i).1 := by
+    rw [Option.some.inj hdec0]; exact hdel0
+  simp only [Co.senderSetupO_ops, Co.choicePointO_ops] at henc hdel
   rw [hS] at henc hdel
   simp only [hcp'] at henc
   have hmap : ((List.range nBits).map fun i => K.toPt (cp i)).mapM K.ofPt = some ((List.range nBits).map cp) := by
